@@ -71,7 +71,7 @@ ASSUMPTIONS = [
 REQUIRED = ['indiv', 'hier', 'filter', 'kind:gauss', 'kind:lognorm', 'kind:trunc', 'kind:pooled', 'kind:hetero',
             'noncentered', 'cov', 'cov_pooled', 'red', 'comp', 'bare', 'ids:unsorted', 'ids:default', 'stat',
             'tight', 'wide', 'chains=1', 'draws=1', 'n_ids=1', 'param_map_swap', 'second_individual',
-            'e2e:optimisation:broken_run', 'n_runs>default:two_steps']
+            'e2e:optimisation:broken_run', 'n_runs>default:two_steps', 'one_parameter']
 
 UNSORTED_IDS = ['id-e', 'id-b', 'id-d', 'id-a', 'id-c']
 SAMPLERS = {'haario': 'HaarioBardenetACMC', 'metropolis': 'MetropolisRandomWalkMCMC'}
@@ -221,6 +221,11 @@ def _spec(draw):
     tight = spec['tight']
     if kind == 'indiv':
         ll = llbuild.draw_ll(draw)
+        if gen.chance(draw, 0.25):
+            # a posterior with exactly ONE free parameter (everything else fixed)
+            ll = llbuild.draw_ll(draw, n_out=1, n_par=1)
+            e0 = ll['ems'][0]
+            e0['fixed'] = {str(j): (e0['fixed'] or {}).get(str(j), 0.5 + 0.25 * j) for j in range(ref.EM_NPAR[e0['kind']])}
         params = llbuild.draw_ll_params(draw, ll)
         rls = ['any'] * ll['n_par'] + ['scale'] * sum(llbuild.ll_n_sigma(ll))
         spec.update(ll=ll, theta0=params, prior=draw_prior(draw, rls, params, tight),
@@ -295,6 +300,8 @@ def classify(spec):
         labs.add('stat')
     labs.add('chains=%d' % spec['n_chains'] if spec['n_chains'] == 1 else 'chains>1')
     labs.add('draws=%d' % spec['n_draws'] if spec['n_draws'] == 1 else 'draws>1')
+    if spec['kind'] == 'indiv' and llbuild.ll_n_parameters(spec['ll']) == 1:
+        labs.add('one_parameter')
     labs.add('sampler:' + spec['sampler'])
     if spec.get('n_runs', 1) > 5:
         labs.add('n_runs>default')
@@ -1024,6 +1031,7 @@ def _check_downstream(case, s, P, L, ctrl):
             pm.fix_parameters(fixed_vals)
         case.equal([str(n) for n in pm.get_parameter_names()], plan['names'], 'predictive model parameter names')
         ppm = chi.PosteriorPredictiveModel(pm, ds, param_map=dict(plan['pmap']))
+        ppm_individual, pm_individual = ppm, pm
         df = ppm.sample(times, n_samples=s['pp_n'], seed=s['pp_seed'], **kw)
         seen = pm.__dict__.get('seen', [])
         case.equal(len(seen), s['pp_n'], 'number of predictive-model evaluations')
@@ -1141,6 +1149,21 @@ def _check_downstream(case, s, P, L, ctrl):
                                                  if len(m) else repr(float(val))))
                     case.fail('mismatch', 'draw %d handed to the population predictive model is no (chain, draw) row '
                               'of the population-level block: %s' % (q, '; '.join(where)))
+
+        # an averaged model whose FIRST candidate is the population-level model and whose second is the individual-level
+        # one, asked for an individual: the individual-level candidate uses that individual's columns
+        if s['kind'] == 'hier' and plan['label'] is not None and L.bottom and 'predictive_individual' in case.checked \
+                and not case.fails:
+            with case.clause('averaged_individual'):
+                pam = chi.PAMPredictiveModel([ppm, ppm_individual], [0.3, 0.7])
+                pm_individual.__dict__['seen'] = []
+                pam.sample(times, n_samples=8, individual=plan['label'], seed=s['pp_seed'] + 2)
+                for q, v in enumerate(pm_individual.__dict__.get('seen', [])):
+                    hit = any(v.shape == r.shape and np.array_equal(v, r) for r in flat)
+                    case.true(hit, 'averaged model asked for individual %r: draw %d handed to the individual-level predictive '
+                              'model is no (chain, draw) row of that individual: %r' % (plan['label'], q, v.tolist()[:4]))
+                if plan['label'] != L.ids[0] if hasattr(L, 'ids') else False:
+                    case.labels.append('averaged_individual:not_first')
 
 
 def _full_params(plan, row, fixed_vals):
